@@ -211,6 +211,45 @@ def check_stream(ctx, ift, rec, tmpdir, with_h5):
                     bad.append("%s: %d sample groups, first %s" % (tag, ns, s0))
                 if extra:
                     bad.append("%s: contains %s which was not requested" % (tag, extra))
+    # the probing helpers are the same statistics over what an operator draws: an operator that hands out the stream sample by sample
+    from nifty.cl.probing import approximation2endo, probe_diagonal, probe_with_posterior_samples
+
+    class StreamOp(ift.EndomorphicOperator):
+        def __init__(s_, dom_, items):
+            s_._domain = ift.makeDomain(dom_)
+            s_._capability = s_.TIMES
+            s_.items = list(items)
+            s_.k = 0
+
+        def apply(s_, x, mode):
+            return x
+
+        def draw_sample(s_, from_inverse=False):
+            s_.k += 1
+            return s_.items[(s_.k - 1) % len(s_.items)]
+    try:
+        pm, pv = probe_with_posterior_samples(StreamOp(dom, samples), op, n, np.float64)
+        if not (close(pm.asnumpy()[0], 2 * float(mean)) and close(pm.asnumpy()[1], 4 * float(mean))):
+            bad.append("probe_with_posterior_samples mean %s != %s" % (pm.asnumpy(), 2 * mean))
+        if n == 1 and pv is not None:
+            bad.append("probe_with_posterior_samples returns a variance for a single probe")
+        if n >= 2 and not (close(pv.asnumpy()[0], 4 * float(var)) and close(pv.asnumpy()[1], 16 * float(var))):
+            bad.append("probe_with_posterior_samples variance %s != unbiased variance %s of the operator outputs" % (pv.asnumpy(), 4 * var))
+        pm0, _ = probe_with_posterior_samples(StreamOp(dom, samples), None, n, np.float64)
+        if not close(pm0.asnumpy()[1], 2 * float(mean)):
+            bad.append("probe_with_posterior_samples (no operator) mean %s != %s" % (pm0.asnumpy(), mean))
+        if n >= 2:
+            md = ift.MultiDomain.make({"u": dom})
+            ap = approximation2endo(StreamOp(md, [ift.MultiField.from_dict({"u": s_}) for s_ in samples]), n)["u"].asnumpy()
+            want = [float(var) if var != 0 else 1., 4 * float(var) if var != 0 else 1.]
+            if not (close(ap[0], want[0]) and close(ap[1], want[1])):
+                bad.append("approximation2endo %s != unbiased variance (zeros replaced by one) %s" % (ap, want))
+        dg = ift.makeField(dom, np.array([float(xs[0]), 2. + n]))
+        pdg = probe_diagonal(ift.makeOp(dg), max(n, 1)).asnumpy()
+        if not (close(pdg[0], float(xs[0])) and close(pdg[1], 2. + n)):
+            bad.append("probe_diagonal of a diagonal operator %s != its diagonal %s" % (pdg, dg.asnumpy()))
+    except Exception as e:
+        bad.append("probing helpers raised %s: %s" % (type(e).__name__, str(e)[:120]))
     # ShiftInvariant: the same stream with a common offset of 1e8 has the same variance and the mean shifted by the offset
     if n >= 2:
         off = 1e8
